@@ -181,6 +181,9 @@ class Registry:
         if ts == "list[arr1]":
             from .arrays import TArrList
             return TArrList()
+        if ts == "char":
+            from .chars import TChar
+            return TChar()
         if ts == "arrseq":
             from .arrays import TArrSeq
             return TArrSeq()
